@@ -8,9 +8,9 @@ git apply demo/patch.diff || { echo "PATCH DOES NOT APPLY"; exit 2; }
 (cmake -G Ninja -B $WT/_build -S $WT -DCMAKE_BUILD_TYPE=RelWithDebInfo >/dev/null && cmake --build $WT/_build >/dev/null) || { echo "BUILD FAILED WITH CHANGE"; git checkout -q -- .; exit 2; }
 T=$(ctest --test-dir $WT/_build -j8 2>&1 | grep "tests passed")
 echo "with change: $T"
-(cd $WT && timeout 900 sh demo/run.sh > demo/verify_changed.txt 2>&1); RC1=$?
+(cd $WT/demo && timeout 1200 bash ./run.sh > verify_changed.txt 2>&1); RC1=$?
 echo "demo with change: exit $RC1"
 git checkout -q -- .
-(cd $WT && timeout 900 sh demo/run.sh > demo/verify_original.txt 2>&1); RC0=$?
+(cd $WT/demo && timeout 1200 bash ./run.sh > verify_original.txt 2>&1); RC0=$?
 echo "demo without change: exit $RC0"
 git status --short | grep -v "^??" | head -3
